@@ -9,6 +9,8 @@ Extracted from the AST of the *current* source (anything else raises TranslatorE
     a conditional expression); each test is classified as the failure-count test `self.failed >= T` or a contact-time test;
     the model evaluates this generated list, so the ORDER of the tests is taken from the source
   * closest_nodes: the default of max_nodes
+  * Bucket.generate_id: the one random draw that produces the suffix (getrandbits(n), randrange(2**n), randint(0, 2**n - 1),
+    randint(0, 2**n), choice('01') per bit) with n = <width> - len(self.prefix_id); its range becomes `genIdDrawBound`
   * Bucket.add: the literal R of `n.rtt / node.rtt >= R` (must be integral), and that the insertion guard is
     `len(self.nodes) < self.max_size` / the eviction guard `len(self.nodes) >= self.max_size`
   * Bucket.split: the refusal test is `len(self.nodes) < self.max_size`
@@ -92,6 +94,51 @@ def extract() -> dict:
                 raise TranslatorError(f"Bucket.generate_id: format {s!r} disagrees with width {width}")
             if re.fullmatch(r"0\d+[xX]", s) and int(s[1:-1]) * 4 != width:
                 raise TranslatorError(f"Bucket.generate_id: format {s!r} disagrees with width {width}")
+
+    # Bucket.generate_id: which draw produces the suffix, and its range (exclusive upper bound as a function of n)
+    def is_suffix_len(e, names):
+        """`W - len(self.prefix_id)` or a local name bound to it"""
+        if isinstance(e, ast.Name) and e.id in names:
+            return True
+        return (isinstance(e, ast.BinOp) and isinstance(e.op, ast.Sub) and isinstance(e.left, ast.Constant)
+                and e.left.value == width and isinstance(e.right, ast.Call) and isinstance(e.right.func, ast.Name)
+                and e.right.func.id == "len" and len(e.right.args) == 1 and _is_self_attr(e.right.args[0], "prefix_id"))
+
+    def pow2(e, names):
+        """2 ** n"""
+        return (isinstance(e, ast.BinOp) and isinstance(e.op, ast.Pow) and isinstance(e.left, ast.Constant)
+                and e.left.value == 2 and is_suffix_len(e.right, names))
+
+    n_names = set()
+    for st in gen.body:
+        if isinstance(st, ast.Assign) and len(st.targets) == 1 and isinstance(st.targets[0], ast.Name) \
+                and is_suffix_len(st.value, set()):
+            n_names.add(st.targets[0].id)
+    draws = []
+    for c in ast.walk(gen):
+        if isinstance(c, ast.Call):
+            fn = c.func.attr if isinstance(c.func, ast.Attribute) else c.func.id if isinstance(c.func, ast.Name) else None
+            if fn == "getrandbits" and len(c.args) == 1 and is_suffix_len(c.args[0], n_names):
+                draws.append(("getrandbits(n)", 0))
+            elif fn == "randrange" and len(c.args) == 1 and pow2(c.args[0], n_names):
+                draws.append(("randrange(2**n)", 0))
+            elif fn == "randint" and len(c.args) == 2 and isinstance(c.args[0], ast.Constant) and c.args[0].value == 0:
+                hi = c.args[1]
+                if pow2(hi, n_names):
+                    draws.append(("randint(0, 2**n)", 1))          # inclusive bound: one value too many
+                elif isinstance(hi, ast.BinOp) and isinstance(hi.op, ast.Sub) and pow2(hi.left, n_names) \
+                        and isinstance(hi.right, ast.Constant) and hi.right.value == 1:
+                    draws.append(("randint(0, 2**n - 1)", 0))
+                else:
+                    raise TranslatorError("Bucket.generate_id: randint with an upper bound outside the translated shapes")
+            elif fn == "choice" and len(c.args) == 1 and isinstance(c.args[0], ast.Constant) and c.args[0].value in ("01", "10"):
+                draws.append(("choice('01') per bit", 0))
+            elif fn in ("getrandbits", "randrange", "randint", "choice", "choices", "randbytes", "random", "urandom",
+                        "randbits", "token_bytes", "sample", "shuffle"):
+                raise TranslatorError(f"Bucket.generate_id: random draw `{fn}(...)` outside the translated shapes")
+    if len(draws) != 1:
+        raise TranslatorError(f"Bucket.generate_id: expected exactly one recognised random draw, found {len(draws)}")
+    gen_draw, gen_excess = draws[0]
 
     # Node.status: decision list in source order
     node_cls = _cls(tree, "Node")
@@ -218,7 +265,7 @@ def extract() -> dict:
     dflt = cn.args.defaults[len(cn.args.defaults) - (len(cargs) - cargs.index("max_nodes"))]
     default_k = _const_int(dflt, "closest_nodes max_nodes default")
 
-    return {"statusRules": rules, "statusDefault": default, "closestDefaultK": default_k,
+    return {"genIdDraw": gen_draw, "genIdDrawExcess": gen_excess, "statusRules": rules, "statusDefault": default, "closestDefaultK": default_k,
             "maxBucketSize": consts["MAX_BUCKET_SIZE"], "idWidth": width, "statusGood": consts["NODE_STATUS_GOOD"],
             "statusUnknown": consts["NODE_STATUS_UNKNOWN"], "statusBad": consts["NODE_STATUS_BAD"],
             "badFailedThreshold": thr, "rttRatio": ratio, "closestBreakStrict": strict}
@@ -229,6 +276,13 @@ def translate() -> tuple[str, dict]:
     lines = ["/- GENERATED by tools/gen_c14.py from ipv8/dht/routing.py — do not edit -/",
              "namespace Ipv8.C14.Gen", ""]
     for k, v in c.items():
+        if k == "genIdDraw":
+            lines.append(f"-- Bucket.generate_id draws its suffix with {v}")
+            continue
+        if k == "genIdDrawExcess":
+            lines.append("/-- exclusive upper bound of the value the random draw in Bucket.generate_id can return, for a suffix of n bits -/")
+            lines.append(f"def genIdDrawBound (n : Nat) : Nat := 2 ^ n + {v}")
+            continue
         if isinstance(v, list):
             items = ", ".join(f"({'true' if a else 'false'}, {b})" for a, b in v)
             lines.append(f"def {k} : List (Bool × Nat) := [{items}]")
